@@ -68,6 +68,10 @@ enum Item {
     Crash(u64, bool),
     Signal(u64, bool),
     Fail { target: Tid, kind: String, revert: bool, io: Option<(String, u32)> },
+    /// the n-th system call of a kind made by zinoma's blocking-pool closures (where records are
+    /// written) fails (ENOSPC, EIO, EACCES), is interrupted (EINTR) or writes only part of its
+    /// buffer; all scripts succeed
+    Sys { site: String, occ: u32, kind: String, revert: bool },
     Prefix { target: Tid, len: usize },
     /// edit: 0 = tree unchanged, 1 = an own input rewritten, 2 = a declared output altered
     Flip { target: Tid, bit: usize, edit: u8 },
@@ -92,6 +96,7 @@ impl Item {
                 },
                 if *revert { "+revert" } else { "" }
             ),
+            Item::Sys { site, occ, kind, revert } => format!("{}#{}!{}{}", site, occ, kind, if *revert { "+revert" } else { "" }),
             Item::Prefix { target, len } => format!("prefix:{}:{}", sc.sim_id(target.0, &target.1), len),
             Item::Flip { target, bit, edit } => format!("flip:{}:{}:{}", sc.sim_id(target.0, &target.1), bit, ["same", "edited", "output-altered"][*edit as usize]),
             Item::ZeroByte { target, idx } => format!("zero:{}:{}", sc.sim_id(target.0, &target.1), idx),
@@ -286,6 +291,27 @@ impl Property for C05 {
                 items.push(Item::Fail { target: t.clone(), kind: kind.into(), revert: false, io: None });
             }
         }
+        // a full disk, an I/O error, an interrupted or short write while a record is being stored
+        let n_writes = r0.footer.as_ref().and_then(|f| f.probes.get("closure-syscall-write").copied()).unwrap_or(0) as u32;
+        let n_opens = r0.footer.as_ref().and_then(|f| f.probes.get("closure-syscall-open-for-write").copied()).unwrap_or(0) as u32;
+        let wstride = if thorough { 1 } else { (n_writes / 24).max(1) };
+        let mut occ = 1;
+        let mut turn = 0usize;
+        while occ <= n_writes {
+            // quick tier: a full disk at every sampled call, the other outcomes in rotation
+            for (i, kind) in ["enospc", "short", "eintr", "eio"].iter().enumerate() {
+                if thorough || i == 0 || i == 1 + turn % 3 {
+                    items.push(Item::Sys { site: "sys.write".into(), occ, kind: kind.to_string(), revert: have_primed });
+                }
+            }
+            turn += 1;
+            occ += wstride;
+        }
+        for occ in 1..=n_opens.min(if thorough { 12 } else { 4 }) {
+            for kind in ["eacces", "enospc", "eintr"] {
+                items.push(Item::Sys { site: "sys.open-for-write".into(), occ, kind: kind.into(), revert: have_primed });
+            }
+        }
         if have_primed {
             // the same interruptions followed by a revert of the edited inputs to what the last
             // successful record saw: a record that wrongly survived would now match
@@ -390,7 +416,7 @@ impl Property for C05 {
             let interrupted: Option<RunResult>;
             let mut edited_ok = false;
             match it {
-                Item::Crash(..) | Item::Signal(..) | Item::Fail { .. } => {
+                Item::Crash(..) | Item::Signal(..) | Item::Fail { .. } | Item::Sys { .. } => {
                     if restore(&base, root).is_err() {
                         stats.harness_errors.push("restore failed".into());
                         break;
@@ -401,6 +427,7 @@ impl Property for C05 {
                     let mut stripped: Option<usize> = None;
                     match it {
                         Item::Crash(k, _) => inv.plan.crash_at = Some(*k),
+                        Item::Sys { site, occ, kind, .. } => inv.plan.faults.push(Fault { site: site.clone(), occurrence: *occ, kind: kind.clone() }),
                         Item::Signal(k, _) => inv.plan.events.insert(0, PlanEvent { id: "sigk".into(), kind: PlanEventKind::Signal, gate: Gate::Step(*k) }),
                         Item::Fail { target, kind, io, .. } => {
                             let id = sc.sim_id(target.0, &target.1);
@@ -446,7 +473,7 @@ impl Property for C05 {
                             break;
                         }
                     }
-                    let reverting = matches!(it, Item::Crash(_, true) | Item::Signal(_, true) | Item::Fail { revert: true, .. });
+                    let reverting = matches!(it, Item::Crash(_, true) | Item::Signal(_, true) | Item::Fail { revert: true, .. } | Item::Sys { revert: true, .. });
                     if reverting {
                         revert_inputs(sc, &mut case, &primed, &started);
                     }
@@ -529,6 +556,23 @@ impl Property for C05 {
             } else if matches!(it, Item::Signal(..)) {
                 *stats.faults.entry("signal-at-decision-index".into()).or_insert(0) += 1;
             }
+            if let (Item::Sys { kind, .. }, Some(r1)) = (it, interrupted.as_ref()) {
+                // an interrupted or short write is no error: the run must end as R0 did
+                if matches!(kind.as_str(), "short" | "eintr") {
+                    if let Some(t) = started.iter().find(|t| r1.logs().any(|e| e.rest.starts_with(&format!("WARN {} - Failed to", sc.display(t.0, &t.1))))) {
+                        verdict = viol(
+                            "record-not-written-after-benign-syscall-outcome",
+                            format!("target={} focus={}", sc.display(t.0, &t.1), tag),
+                            format!("[{}] is a legal outcome of the call, not an error, yet {} was not recorded: {}", tag, sc.display(t.0, &t.1), r1.logs().find(|e| e.rest.contains("Failed to")).map(|e| e.rest.clone()).unwrap_or_default().chars().take(200).collect::<String>()),
+                        );
+                        break;
+                    }
+                }
+                if let Some(a) = r1.abnormal() {
+                    verdict = viol("abnormal-exit-on-io-error", format!("how={} focus={}", a, tag), format!("under [{}] zinoma ended abnormally ({})", tag, a));
+                    break;
+                }
+            }
             let c2 = InvCtx::new(sc, &recovery, &r2);
             if let Some(a) = r2.abnormal() {
                 verdict = viol(
@@ -568,7 +612,7 @@ impl Property for C05 {
                     // reverted inputs: only a target whose script actually started in the
                     // interrupted run and did not complete must run again (an untouched old
                     // record legitimately matches the reverted inputs)
-                    Item::Crash(_, true) | Item::Signal(_, true) | Item::Fail { revert: true, .. } => {
+                    Item::Crash(_, true) | Item::Signal(_, true) | Item::Fail { revert: true, .. } | Item::Sys { revert: true, .. } => {
                         let r1 = interrupted.as_ref();
                         let spawned = r1.map(|r| !r.insts(&sc.sim_id(t.0, &t.1)).is_empty()).unwrap_or(false);
                         let done = r1.map(|r1| completed_in(r1, sc, t, &disp) && on_disk[t].is_some()).unwrap_or(false);
@@ -577,7 +621,7 @@ impl Property for C05 {
                     // after a signal or failure the run diverges from R0 (other completion order,
                     // other logical mtimes): "done" = zinoma reported the build's success and
                     // stored its state in that run
-                    Item::Signal(_, false) | Item::Fail { revert: false, .. } => {
+                    Item::Signal(_, false) | Item::Fail { revert: false, .. } | Item::Sys { revert: false, .. } => {
                         let done = interrupted.as_ref().map(|r1| completed_in(r1, sc, t, &disp) && on_disk[t].is_some()).unwrap_or(false);
                         started.contains(t) && !done
                     }
@@ -587,7 +631,7 @@ impl Property for C05 {
                 };
                 if must_run {
                     let why = match it {
-                        Item::Crash(..) | Item::Signal(..) | Item::Fail { .. } => {
+                        Item::Crash(..) | Item::Signal(..) | Item::Fail { .. } | Item::Sys { .. } => {
                             let state = match &on_disk[t] {
                                 None => "absent".to_string(),
                                 Some(b) => format!("{} bytes, differs from the completed record ({} bytes)", b.len(), finals.get(t).map(|f| f.len()).unwrap_or(0)),
